@@ -65,6 +65,18 @@ TraceCase ==
                    SameQ(e.perm_metrics[n][i], e.metrics[n][IndexOf(cls, prm[i])])>>,
           <<"C05.accuracy", ~ok \/ SameQ(e.accuracy, Accuracy(M))>>,
           <<"C05.shapes", ~ok \/ e.shape_ok>>,
+          (* leading shape (2,3): grid [[M, M', M], [M', M', M]], M' = labels and predictions swapped *)
+          <<"C05.two_leading_dimensions", ~ok \/ \A n \in DOMAIN e.stacked2 :
+               LET M2 == Build(SwapLP(smp), cls)
+                   el(a, b) == IF <<a, b>> \in {<<1, 1>>, <<1, 3>>, <<2, 3>>} THEN M ELSE M2
+                   z == e.stacked2[n]
+               IN /\ Len(z.arr) = 2 /\ Len(z.dict) = 2
+                  /\ \A a \in 1..2 : Len(z.arr[a]) = 3 /\ Len(z.dict[a]) = 3
+                  /\ \A a \in 1..2 : \A b \in 1..3 :
+                        /\ vec(z.arr[a][b]) /\ vec(z.dict[a][b])
+                        /\ \A j \in 1..nc :
+                              /\ SameQ(z.arr[a][b][j], RateOf(BaseName(n), OneVsAll(el(a, b))[j]))
+                              /\ SameQ(z.dict[a][b][j], z.arr[a][b][j])>>,
           <<"C05.stacked", ~ok \/ \A n \in MetricNames :
                LET M2 == Build(SwapLP(smp), cls) IN
                /\ Len(e.stacked[n]) = 2 /\ vec(e.stacked[n][1]) /\ vec(e.stacked[n][2])
